@@ -327,7 +327,7 @@ func monitorsOf(line string) string {
 func debMonitorsOf(line string) string {
 	var out []string
 	for _, w := range strings.Fields(line) {
-		for _, k := range []string{"waiters=", "stranded=", "late=", "latestranded=", "stopret=", "exited="} {
+		for _, k := range []string{"waiters=", "stranded=", "late=", "stopret=", "exited="} {
 			if strings.HasPrefix(w, k) {
 				out = append(out, w)
 			}
@@ -382,7 +382,7 @@ func exec(op string) string {
 		if pend < 0 || parked < 0 {
 			return "bad-op"
 		}
-		fresh, _ := runSessRef(label, pend, parked == 1)
+		fresh := runSessRef(label, pend, parked == 1)
 		if fresh == op {
 			return "accept"
 		}
@@ -574,16 +574,19 @@ func main() {
 				out.Case(pr[i].op, pr[i].impl, "pipe/"+w[1]+"/"+w[2], true)
 			}
 			cls := "pipeobs/A"
-			if !strings.Contains(pr[i].obs, " lateadd=0 ") {
-				cls = "pipeobs/A/addHost-inside-Session.Close(KF-C17-3)"
+			if strings.Contains(pr[i].op, " shold ") {
+				cls = "pipeobs/A/Session.Close-held-before-cancel"
+				if w := strings.SplitN(pr[i].op, " shold ", 2); strings.Contains(" "+w[1], " up") {
+					cls = "pipeobs/A/addHost-inside-Session.Close"
+				}
 			}
 			out.Case(pr[i].obs, "accept", cls, true)
 		} else if i < nA+nB {
 			out.Case(pr[i].obs, "accept", "pipeobs/B", true)
 		} else {
 			cls := "pipeobs/C"
-			if !strings.Contains(pr[i].obs, " lateadd=0 ") {
-				cls = "pipeobs/C/addHost-inside-Session.Close(KF-C17-3)"
+			if strings.Contains(pr[i].obs, "sclose+") {
+				cls = "pipeobs/C/addHost-racing-Session.Close"
 			}
 			out.Case(pr[i].obs, "accept", cls, true)
 		}
@@ -600,7 +603,7 @@ func main() {
 		op, impl, obs := runDeb(fmt.Sprintf("d%d", i), nil, dr, 4+dr.Intn(9))
 		cls := "deb/early"
 		if !strings.Contains(obs, " late=0 ") {
-			cls = "deb/late-refreshNow(KF-C17-2)"
+			cls = "deb/refreshNow-after-the-flusher-returned"
 		}
 		out.Case(op, impl, cls, true)
 		out.Case(obs, "accept", "debobs", true)
@@ -614,18 +617,18 @@ func main() {
 	}
 	for i := 0; i < 24*mult && atomic.LoadInt64(&failures) < 2; i++ {
 		pend, parked := r.Intn(4), i%4 != 3
-		line, late := runSessRef(fmt.Sprintf("sr%d", i), pend, parked)
+		line := runSessRef(fmt.Sprintf("sr%d", i), pend, parked)
 		if strings.HasPrefix(line, "fatal") {
 			fmt.Fprintln(os.Stderr, line)
 			os.Exit(3)
 		}
-		extra["sessref/raced-callers-registered-after-the-flusher-returned(KF-C17-2)"] += late
 		out.Case(line, "accept", fmt.Sprintf("sessref/parked%d/pending%d", b2i(parked), pend), true)
 	}
+	extra["deb/refreshes-of-a-timer-that-survived-the-flusher's-drain-let-through"] = int(atomic.LoadInt64(&staleTimerRefreshes))
 	lap("debwaiters")
 	// 1. debouncer stop races (the defect repaired by the fix commit must not come back). Run LAST: each round
-	// leaves a goroutine parked on a listener nobody serves any more (refreshNow after stop), and thousands of
-	// parked goroutines make every goroutine profile of the pipeline monitors slow.
+	// left a goroutine parked on a listener nobody served any more (refreshNow after stop) on a tree without the fix
+	// commit for KF-C17-2, and thousands of parked goroutines make every goroutine profile of the pipeline monitors slow.
 	rounds := 3000 * mult
 	// stop() must return: waited for with the patient watchdog (a frozen process cannot expire it); a tree in which
 	// it hangs is reported after 3 hung rounds
@@ -641,5 +644,5 @@ func main() {
 	out.Case("hsmodel code wRet wSend cRet rEnd", "r=done w=done c=ret cancelled=1 buf=0", "model", true)
 	out.Case("hsmodel buf ctxFire cLeave cRet wRet wSend rErr", "r=send w=done c=ret cancelled=1 buf=1", "model", true)
 	out.Case("hsmodel buf ctxFire cLeave cRet wRet wSend rErr rSend", "stuck", "model", true)
-	out.Close(map[string]interface{}{"harness_phase_wall": phases, "excluded_class_counts": extra})
+	out.Close(map[string]interface{}{"harness_phase_wall": phases, "class_counts": extra})
 }
